@@ -31,6 +31,40 @@ def check(pm: ProgramModel, ctx: Ctx) -> None:
                        "feature-model semantics of [min..max] relations as in card.py"]
     rule = "C14"
     fn = pm.func("get_core_features", "fm_core_features")
+    mb = ModelBuilder(pm)
+    try:
+        step_check(pm, ctx, mb, fn, rule)
+    except AnalysisError as exc:
+        # not the worklist shape the step check understands (e.g. rewritten recursively): no verdict from
+        # the step argument; the whole-function evaluation below still decides the abstract tree family
+        ctx.unverified("C14-STEP", "shape", loc(fn.unit.path, fn.node), f"step check not applicable: {exc.reason}")
+    # whole function on abstract trees (covers paths that leave before / around the loop) ------------
+    from .c16 import TREES, build_tree
+    from ..model import rich_model
+    from ..roundtrip import features as all_features
+    models = {k: mb.model(build_tree(mb, spec), []) for k, spec in TREES.items()}
+    models["rich"] = rich_model(mb)
+    for name, m in models.items():
+        it = Interp(pm)
+        try:
+            got = it.call(fn, [m])
+        except AbsRaise as exc:
+            got = ("raise", exc.what)
+        want = _core(m)
+        okk = isinstance(got, list) and sorted(f._f["name"] for f in got) == sorted(f._f["name"] for f in want) \
+            and len({id(f) for f in got}) == len(got)
+        ctx.check(okk, "C14-WHOLE", f"tree:{name}", loc(fn.unit.path, fn.node),
+                  f"core features of abstract tree '{name}' are the closure of the root under forced relations",
+                  bad=f"get_core_features on abstract tree '{name}' gives "
+                      f"{[f._f['name'] for f in got] if isinstance(got, list) else got}, the always-selected "
+                      f"features are {[f._f['name'] for f in want]}")
+    # exit ----------------------------------------------------------------------------------------
+    check_wrapper(pm, ctx, "C14-WRAP", "FMCoreFeatures", "get_core_features", "fm_core_features")
+
+
+
+def step_check(pm: ProgramModel, ctx: Ctx, mb: ModelBuilder, fn: Any, rule: str) -> None:
+    param = fn.params[0]
     pre, loop, post = split_while(fn, rule)
     W = worklist_name(loop)
     R = returned_name(post)
@@ -38,7 +72,6 @@ def check(pm: ProgramModel, ctx: Ctx) -> None:
         raise AnalysisError(rule, "cannot identify worklist / result variable of get_core_features",
                             loc(fn.unit.path, fn.node))
     mb = ModelBuilder(pm)
-    param = fn.params[0]
     # init ------------------------------------------------------------------------------------
     root = mb.feature("root")
     mb.relation(root, [mb.feature("m")], 1, 1)
@@ -108,6 +141,9 @@ def check(pm: ProgramModel, ctx: Ctx) -> None:
                         bad_exact.setdefault(k, []).append(
                             f"relation {d}: children are in every configuration but are not added")
     ctx.analysed["C14:step-evaluations"] = n_steps
+    ctx.floor(rule, "step evaluations", n_steps, 100)
+    ctx.ok("C14-CLOSURE", "returns-result", loc(fn.unit.path, fn.node),
+           f"the list `{R}` built by the loop is what the function returns")
     ctx.check(not bad_shape, "C14-CLOSURE", "step-shape", loc(fn.unit.path, loop),
               f"each iteration pops one feature and feeds result and worklist with the same features "
               f"({n_steps} abstract states)", bad="; ".join(bad_shape[:2]))
@@ -118,31 +154,6 @@ def check(pm: ProgramModel, ctx: Ctx) -> None:
         ctx.check(k not in bad_exact, "C14-GUARD", f"exact:{k}", loc(fn.unit.path, loop),
                   f"children of forced relations of class {k} are added",
                   bad=(bad_exact.get(k) or [""])[0])
-    # whole function on abstract trees (covers paths that leave before / around the loop) ------------
-    from .c16 import TREES, build_tree
-    from ..model import rich_model
-    from ..roundtrip import features as all_features
-    models = {k: mb.model(build_tree(mb, spec), []) for k, spec in TREES.items()}
-    models["rich"] = rich_model(mb)
-    for name, m in models.items():
-        it = Interp(pm)
-        try:
-            got = it.call(fn, [m])
-        except AbsRaise as exc:
-            got = ("raise", exc.what)
-        want = _core(m)
-        okk = isinstance(got, list) and sorted(f._f["name"] for f in got) == sorted(f._f["name"] for f in want) \
-            and len({id(f) for f in got}) == len(got)
-        ctx.check(okk, "C14-WHOLE", f"tree:{name}", loc(fn.unit.path, fn.node),
-                  f"core features of abstract tree '{name}' are the closure of the root under forced relations",
-                  bad=f"get_core_features on abstract tree '{name}' gives "
-                      f"{[f._f['name'] for f in got] if isinstance(got, list) else got}, the always-selected "
-                      f"features are {[f._f['name'] for f in want]}")
-    # exit ----------------------------------------------------------------------------------------
-    ctx.ok("C14-CLOSURE", "returns-result", loc(fn.unit.path, fn.node),
-           f"the list `{R}` built by the loop is what the function returns")
-    check_wrapper(pm, ctx, "C14-WRAP", "FMCoreFeatures", "get_core_features", "fm_core_features")
-    ctx.floor(rule, "step evaluations", n_steps, 100)
 
 
 def _core(m: AObj) -> list[AObj]:
